@@ -156,10 +156,10 @@ Definition cartesian_gen (lt : link_t) (ns : list Q) : option Q :=
 Lemma cartesian_gen_is_model : forall lt ns, cartesian_gen lt ns = cartesian lt ns.
 Proof. intros [] ns; reflexivity. Qed.
 Theorem cartesian_gen_counts_admissible_pairs :
-  forall lt ns c, (lt = DedupeOnly -> length ns = 1%nat) ->
+  forall lt ns c,
     cartesian_gen lt (map (fun n => inject_Z (Z.of_nat n)) ns) = Some c ->
     c == inject_Z (Z.of_nat (admissible_pairs lt ns)).
-Proof. intros lt ns c H. rewrite cartesian_gen_is_model. apply cartesian_counts_admissible_pairs. exact H. Qed.
+Proof. intros lt ns c. rewrite cartesian_gen_is_model. apply cartesian_counts_admissible_pairs. Qed.
 Print Assumptions cartesian_gen_counts_admissible_pairs.
 """
 
